@@ -358,6 +358,7 @@ def model_checks(ctx, q):
 
 def replay_framing(ctx, exe, q):
     behs = ctx.tlc_gen(SPEC, "Gen_Framing.tla", "Gen_fr_quick.cfg" if q else "Gen_fr_thorough.cfg", timeout=1500)
+    behs.sort(key=lambda b: json.dumps(b, sort_keys=True))         # TLC's workers print in no fixed order
     scripts = gen_to_scripts(behs)
     ctx.notes.append("framing: %d model behaviours (scenario x segmentation) -> %d scenarios, %d runs on the real protos" %
                      (len(behs), len(scripts), sum(len(s["runs"]) for s in scripts)))
@@ -368,8 +369,9 @@ def replay_framing(ctx, exe, q):
 
 def replay_rpc(ctx, exe, q, r):
     rbehs = ctx.tlc_gen(SPEC, "Gen_Rpc.tla", "Gen_rpc_quick.cfg" if q else "Gen_rpc_thorough.cfg", timeout=1500)
-    deep = ctx.tlc_gen(SPEC, "Gen_Rpc.tla", "Gen_rpc_sim.cfg", simulate=(1000000, 60), timeout=6 if q else 60, workers=4,
-                       limit=1500 if q else 20000)
+    deep = ctx.tlc_gen(SPEC, "Gen_Rpc.tla", "Gen_rpc_n2.cfg" if q else "Gen_rpc_n2_thorough.cfg", timeout=1500)
+    rbehs.sort(key=lambda b: json.dumps(b, sort_keys=True))       # TLC's workers print in no fixed order
+    deep.sort(key=lambda b: json.dumps(b, sort_keys=True))
     rscripts = gen_to_rpc_scripts(rbehs + deep, r)
     ctx.sample({"kind": "model behaviour replayed on the real Rpc", "script": rscripts[len(rbehs) // 3]})
     run_rpc(ctx, exe, rscripts, "genrpc", "replay of %d model behaviours (rpc)" % len(rscripts), True)
